@@ -47,7 +47,7 @@ CLASSES = ["forest", "shared", "conflict", "load", "holes", "refuse", "multi"]
 
 
 def plan(tier):
-    n = 200 if tier == "quick" else 6000
+    n = 600 if tier == "quick" else 30000
     return [(c, n) for c in CLASSES]
 
 
